@@ -343,6 +343,13 @@ func (w *World) RandomOp(o HistOpts) {
 			if a, t, err := w.App.OracleKeeper.GetCurrentAggregateReport(w.Ctx, utils.QueryIDFromData(w.QData["qeth"])); err == nil && a != nil && w.pick(2) == 0 {
 				qid, ts = hex.EncodeToString(a.QueryId), fmt.Sprint(t.UnixMilli())
 			}
+			// ... or of an OLDER aggregate of some query (the first ones included): the snapshot then has a next neighbour
+			if w.pick(2) == 0 {
+				qn := []string{"qeth", "qbtc", "qtrb", "dep1", "dep2"}[w.pick(5)]
+				if a, t, err := w.App.OracleKeeper.GetAggregateByIndex(w.Ctx, utils.QueryIDFromData(w.QData[qn]), uint64(w.pick(3))); err == nil && a != nil {
+					qid, ts = hex.EncodeToString(a.QueryId), fmt.Sprint(t.UnixMilli())
+				}
+			}
 			w.RequestAttestations(w.anyActor(), qid, ts)
 		}},
 		{1, func() {
@@ -436,6 +443,15 @@ func (w *World) RandomOp(o HistOpts) {
 			case 2:
 				if o.Boundary && !o.NoBadValues && govBoundary && w.pick(3) == 0 {
 					w.UpdateOracleParams(w.Gov, []int64{0, 1, 5, 999_999}[w.pick(4)])
+				} else if w.pick(2) == 0 {
+					// a minimum that is not a whole number of tokens, and a reporter whose stake lies just below it
+					// (same whole-token bucket): it must not be able to report
+					min := []int64{1_500_000, 2_300_001, 1_000_001}[w.pick(3)]
+					w.UpdateOracleParams(w.Gov, min)
+					u := w.AddActor(fmt.Sprintf("ms%d", len(w.Actors)), 50_000_000)
+					w.Delegate(u, w.Vals[0], min-1-int64(w.pick(300_000)))
+					w.CreateReporter(u, sdkmath.LegacyZeroDec(), 1_000_000)
+					w.Submit(u, w.currentCycleQuery(), hex32(uint64(1000+w.pick(5))))
 				} else {
 					w.UpdateOracleParams(w.Gov, int64(1_000_000*(1+w.pick(3))))
 				}
